@@ -7,6 +7,12 @@ its first row for a 0-dimensional argument, when there is one), the `isinstance(
 `metrical_position_map`, the collator of `clef_map`.  For every map, every part and every argument:
 a scalar call returns the row of the scalar map of Model/StepMap*.lean (the one the `*_spec` theorems are about),
 and a call with a sequence returns exactly one such row per element, in order (`none` for an empty sequence).
+
+Round 6: `metrical_position_map` is modelled as the code dispatches (PPoly and the wrapper called with the argument as
+it is, the `Iterable` test, `np.column_stack` / the tuple) and `metrical_calls_agree` has no hypotheses; the sequence
+call of `measure_number_map` is an equation; a 0-dimensional array (`np.array(5)`) is a third kind of argument:
+`zerod_calls_agree` - the row of the scalar call for five maps, and for `metrical_position_map` that row as a
+ONE-ROW ARRAY when the part has measures (`numpy.ndarray` is `Iterable`; the values agree, the shape is the array's).
 -/
 import PartituraModel.Model.StepMapCalls
 import PartituraModel.Props.C10
@@ -38,14 +44,23 @@ theorem ts_ks_calls_agree (span : Span) (ts : List TimeMap.TSig) (kss : List (In
     (∀ xs, callKS span kss (.seq xs) = .many (vec (ksMap span kss) xs)) :=
   ⟨(interp_call_agrees _).1, (interp_call_agrees _).2, (interp_call_agrees _).1, (interp_call_agrees _).2⟩
 
+private theorem allSomeL_map_some {β : Type} (l : List β) : allSomeL (l.map some) = some l := by
+  induction l with
+  | nil => rfl
+  | cons a rest ih => simp [allSomeL, ih]
+
 /-- **`measure_calls_agree`**: `measure_map` and `measure_number_map` (they raise for a scalar exactly when they raise
     for a sequence: the error comes from building the map) -/
 theorem measure_calls_agree (p : PartD) :
     (∀ x, callMeasure p (.scalar x) = (measureMapP p x).map .one) ∧
     (∀ xs, callMeasure p (.seq xs) = if raisesP p then none else some (.many (xs.map (interpPrev (measureTableP p))))) ∧
     (∀ x, callMeasureNumber p (.scalar x) = (measureNumberMapP p x).map .one) ∧
-    (∀ xs, (callMeasureNumber p (.seq xs)).isSome = (callMeasureNumber p (.scalar 0)).isSome) := by
-  refine ⟨?_, ?_, ?_, ?_⟩
+    (∀ xs, callMeasureNumber p (.seq xs) = if raisesP p then none
+        else (measureNumberTable p.span p.ms (beatsPerBar p) (divsPerBeat p)).map fun tbl =>
+          .many (xs.map (interpPrev tbl))) ∧
+    (∀ xs, xs ≠ [] → callMeasureNumber p (.seq xs)
+        = (allSomeL (xs.map (measureNumberMapP p))).map .many) := by
+  refine ⟨?_, ?_, ?_, ?_, ?_⟩
   · intro x
     unfold callMeasure measureMapP
     split
@@ -67,42 +82,194 @@ theorem measure_calls_agree (p : PartD) :
     unfold callMeasureNumber
     split
     · rfl
-    · cases measureNumberTable p.span p.ms (beatsPerBar p) (divsPerBeat p) <;> rfl
+    · cases measureNumberTable p.span p.ms (beatsPerBar p) (divsPerBeat p) with
+      | none => rfl
+      | some tbl => simp [(interp_call_agrees tbl).2]
+  · intro xs hne
+    obtain ⟨x, rest, rfl⟩ := List.exists_cons_of_ne_nil hne
+    unfold callMeasureNumber measureNumberMapP
+    split
+    · rfl
+    · cases measureNumberTable p.span p.ms (beatsPerBar p) (divsPerBeat p) with
+      | none => rfl
+      | some tbl =>
+        simp only [Option.map_some, (interp_call_agrees tbl).2]
+        have : ((x :: rest).map fun x => some (interpPrev tbl x)) = ((x :: rest).map (interpPrev tbl)).map some := by
+          rw [List.map_map]; rfl
+        rw [this, allSomeL_map_some]
+        rfl
 
-private theorem allSomeL_map_some {β : Type} (l : List β) : allSomeL (l.map some) = some l := by
-  induction l with
+/-- the wrapper called with a 0-dimensional array: the row of the scalar lookup (scipy: shape of the argument;
+    the single-sample branch: `np.ndim(input_var) == 0`) -/
+theorem interp_call_zerod {α : Type} (tbl : Tbl α) (x : Int) :
+    callInterpPrev tbl (.zerod x) = .one (interpPrev tbl x) := by
+  cases tbl with
   | nil => rfl
-  | cons a rest ih => simp [allSomeL, ih]
+  | cons a rest =>
+    cases rest with
+    | nil => rfl
+    | cons b rest' => rfl
 
-/-- **`metrical_calls_agree`**: `metrical_position_map` - a sequence gives one `(position, length)` row per element,
-    each the answer of the scalar call (the tuple), and nothing for an empty sequence -/
-theorem metrical_calls_agree (p : PartD) (xs : List Int) (rows : List (Int × Option Int))
-    (h : ∀ i (hi : i < xs.length), metricalMapP p xs[i] = rows[i]?) (hl : rows.length = xs.length) :
-    callMetrical p (.seq xs) = some (.many rows) ∧
-    ∀ i (hi : i < xs.length), callMetrical p (.scalar xs[i]) = (rows[i]?).map .one := by
-  constructor
-  · unfold callMetrical
-    simp only
-    have : xs.map (metricalMapP p) = rows.map some := by
-      apply List.ext_getElem
-      · simp [hl]
-      · intro i h1 h2
-        simp only [List.getElem_map]
-        rw [h i (by simpa using h1)]
-        simp only [List.length_map] at h2
-        rw [List.getElem?_eq_getElem h2]
+private theorem look_ne_nil {β : Type} (look : List β) (last : β) (h : look.getLast? = some last) : look ≠ [] := by
+  intro hn; rw [hn] at h; simp at h
+
+/-- `metrical_position_map` given the bar lookups: the three kinds of argument against the scalar map -/
+theorem metrical_of_bars_calls (look : List (Int × Int)) :
+    (∀ x, callMetricalOfBars look (.scalar x) = (metricalOfBars look x).map .one) ∧
+    (∀ xs, callMetricalOfBars look (.seq xs) = (allSomeL (xs.map (metricalOfBars look))).map .many) ∧
+    (∀ x, callMetricalOfBars look (.zerod x)
+      = (metricalOfBars look x).map fun r => if look.isEmpty then .one r else .many [r]) := by
+  unfold callMetricalOfBars metricalOfBars
+  cases hl : look.getLast? with
+  | none =>
+    have he : look = [] := List.getLast?_eq_none_iff.mp hl
+    refine ⟨fun _ => rfl, fun xs => ?_, fun _ => by simp [he, callScipy]⟩
+    simp only [callScipy]
+    have : (xs.map fun _ => some ((0 : Int), some (0 : Int))) = (xs.map fun _ => ((0 : Int), some (0 : Int))).map some := by
+      rw [List.map_map]; rfl
     rw [this, allSomeL_map_some]
     rfl
-  · intro i hi
-    unfold callMetrical
-    simp only
-    rw [h i hi]
+  | some last =>
+    have hne : look ≠ [] := look_ne_nil look last hl
+    have hemp : look.isEmpty = false := by
+      cases look with
+      | nil => exact absurd rfl hne
+      | cons a r => rfl
+    refine ⟨fun x => ?_, fun xs => ?_, fun x => ?_⟩
+    · simp only [callScipy, (interp_call_agrees _).1, Arg.isIterable, Bool.false_eq_true, if_false]
+      generalize lookupPrev _ x = o
+      cases o <;> rfl
+    · simp only [callScipy, (interp_call_agrees _).2, Arg.isIterable, if_true, columnStack, List.zip_map',
+        List.map_map]
+      congr 2
+      apply List.map_congr_left
+      intro x _
+      simp only [Function.comp_def]
+      generalize lookupPrev _ x = o
+      cases o <;> rfl
+    · simp only [callScipy, interp_call_zerod, Arg.isIterable, if_true, hemp, Bool.false_eq_true, if_false,
+        List.map_map]
+      generalize lookupPrev _ x = o
+      cases o <;> rfl
+
+/-- **`metrical_calls_agree`** (no hypotheses): `metrical_position_map` - the scalar call gives the tuple of the
+    scalar map; a sequence one `(position, length)` row per element, each the answer of the scalar call, in order; an
+    empty sequence an empty array exactly when the map can be built (it raises for a scalar exactly when it raises
+    for a sequence: the error comes from building the map) -/
+theorem metrical_calls_agree (p : PartD) :
+    (∀ x, callMetrical p (.scalar x) = (metricalMapP p x).map .one) ∧
+    (∀ xs, xs ≠ [] → callMetrical p (.seq xs) = (allSomeL (xs.map (metricalMapP p))).map .many) ∧
+    (callMetrical p (.seq []) = (metricalMapP p 0).map fun _ => .many []) := by
+  unfold callMetrical metricalMapP metricalFromTable
+  by_cases hr : raisesP p = true
+  · simp only [hr, if_true]
+    refine ⟨fun _ => rfl, fun xs hne => ?_, rfl⟩
+    obtain ⟨x, rest, rfl⟩ := List.exists_cons_of_ne_nil hne
+    rfl
+  · simp only [hr, Bool.false_eq_true, if_false]
+    cases hb : barLookups (measureTableP p) (bars p) with
+    | none =>
+      refine ⟨fun _ => rfl, fun xs hne => ?_, rfl⟩
+      obtain ⟨x, rest, rfl⟩ := List.exists_cons_of_ne_nil hne
+      rfl
+    | some look =>
+      obtain ⟨h1, h2, _⟩ := metrical_of_bars_calls look
+      refine ⟨h1, fun xs _ => h2 xs, ?_⟩
+      simp only
+      rw [h2]
+      -- the scalar map answers at 0
+      unfold metricalOfBars
+      cases hl : look.getLast? with
+      | none => rfl
+      | some last =>
+        have hne : (look.map fun x => (x.1, x.1)) ≠ [] := by
+          intro h; exact look_ne_nil look last hl (List.map_eq_nil_iff.mp h)
+        have := lookupPrev_isSome _ 0 hne
+        simp only [List.map_map] at this ⊢
+        obtain ⟨b, hb0⟩ := Option.isSome_iff_exists.mp this
+        have hb0' : lookupPrev (List.map ((fun s : Int => (s, s)) ∘ fun x : Int × Int => x.1) look) 0 = some b := hb0
+        rw [hb0']
+        rfl
+
+/-- the old form: given rows that are the answers of the scalar map, the sequence call returns exactly them -/
+theorem metrical_calls_rows (p : PartD) (xs : List Int) (rows : List (Int × Option Int)) (hne : xs ≠ [])
+    (h : ∀ i (hi : i < xs.length), metricalMapP p xs[i] = rows[i]?) (hl : rows.length = xs.length) :
+    callMetrical p (.seq xs) = some (.many rows) := by
+  rw [(metrical_calls_agree p).2.1 xs hne]
+  have : xs.map (metricalMapP p) = rows.map some := by
+    apply List.ext_getElem
+    · simp [hl]
+    · intro i h1 h2
+      simp only [List.getElem_map]
+      rw [h i (by simpa using h1)]
+      simp only [List.length_map] at h2
+      rw [List.getElem?_eq_getElem h2]
+  rw [this, allSomeL_map_some]
+  rfl
+
+/-- **`zerod_calls_agree`**: a 0-dimensional array (`np.array(5)`) as argument - five maps answer exactly as for the
+    scalar; `metrical_position_map` answers with the same row, as a one-row array when the part has measures (its
+    `isinstance(input, Iterable)` test is true for every `numpy.ndarray`) and as the scalar's row when it has none -/
+theorem zerod_calls_agree (p : PartD) (span : Span) (kss : List (Int × Int × Mode)) (clefs : List RawClef)
+    (others : List Int) (x : Int) :
+    callTS p.span p.ts (.zerod x) = callTS p.span p.ts (.scalar x) ∧
+    callKS span kss (.zerod x) = callKS span kss (.scalar x) ∧
+    callClef span clefs others (.zerod x) = callClef span clefs others (.scalar x) ∧
+    callMeasure p (.zerod x) = callMeasure p (.scalar x) ∧
+    callMeasureNumber p (.zerod x) = callMeasureNumber p (.scalar x) ∧
+    callMetrical p (.zerod x) = (metricalMapP p x).map fun r => if p.ms.isEmpty then .one r else .many [r] := by
+  refine ⟨?_, ?_, ?_, ?_, ?_, ?_⟩
+  · unfold callTS; rw [interp_call_zerod, (interp_call_agrees _).1]
+  · unfold callKS; rw [interp_call_zerod, (interp_call_agrees _).1]
+  · unfold callClef
+    cases clefRows clefs with
+    | none => rfl
+    | some rows =>
+      cases clefSignToInt "none" with
+      | none => rfl
+      | some noneCode =>
+        simp only [Option.some.injEq, Res.one.injEq, List.map_map]
+        apply List.map_congr_left
+        intro i _
+        simp only [Function.comp_def]
+        rw [interp_call_zerod, (interp_call_agrees _).1]
+  · unfold callMeasure
+    split
+    · rfl
+    · rw [interp_call_zerod, (interp_call_agrees _).1]
+  · unfold callMeasureNumber
+    split
+    · rfl
+    · cases measureNumberTable p.span p.ms (beatsPerBar p) (divsPerBeat p) with
+      | none => rfl
+      | some tbl => simp [interp_call_zerod, (interp_call_agrees tbl).1]
+  · unfold callMetrical metricalMapP metricalFromTable
+    split
+    · rfl
+    · cases hb : barLookups (measureTableP p) (bars p) with
+      | none => rfl
+      | some look =>
+        simp only
+        rw [(metrical_of_bars_calls look).2.2]
+        -- `look` is empty exactly when the part has no measures
+        have : look.isEmpty = p.ms.isEmpty := by
+          unfold bars at hb
+          cases hms : p.ms with
+          | nil => rw [hms] at hb; simp [barLookups] at hb; subst hb; rfl
+          | cons m rest =>
+            rw [hms] at hb
+            simp only [List.map_cons, barLookups] at hb
+            split at hb
+            · obtain ⟨rfl⟩ := hb; rfl
+            · exact absurd hb (by simp)
+        rw [this]
 
 /-- an empty sequence gives an empty array, for every map -/
 theorem empty_argument (p : PartD) (span : Span) (kss : List (Int × Int × Mode)) (hr : raisesP p = false) :
     callTS p.span p.ts (.seq []) = .many [] ∧ callKS span kss (.seq []) = .many [] ∧
-    callMeasure p (.seq []) = some (.many []) ∧ callMetrical p (.seq []) = some (.many []) := by
-  refine ⟨(interp_call_agrees _).2 [], (interp_call_agrees _).2 [], ?_, rfl⟩
+    callMeasure p (.seq []) = some (.many []) ∧
+    callMetrical p (.seq []) = (metricalMapP p 0).map fun _ => .many [] := by
+  refine ⟨(interp_call_agrees _).2 [], (interp_call_agrees _).2 [], ?_, (metrical_calls_agree p).2.2⟩
   rw [(measure_calls_agree p).2.1, hr]
   rfl
 
@@ -151,5 +318,100 @@ example : callTS (some (0, 16)) [⟨0, 3, 4, 3⟩] (.seq [2, 9]) = .many [some (
     ∧ callTS (some (0, 16)) [⟨0, 3, 4, 3⟩] (.scalar 2) = .one (some (3, 4, 3))
     ∧ callTS (some (0, 16)) [⟨0, 3, 4, 3⟩, ⟨8, 4, 4, 4⟩] (.seq [2, 9]) = .many [some (3, 4, 3), some (4, 4, 4)]
     ∧ callTS (some (0, 16)) [⟨0, 3, 4, 3⟩] (.seq []) = .many [] := by decide
+
+/-! ### one row or an array of rows -/
+
+theorem interp_shape {α : Type} (tbl : Tbl α) (a : Arg) : (callInterpPrev tbl a).isOne = a.isZeroDim := by
+  cases tbl with
+  | nil => cases a <;> rfl
+  | cons e rest =>
+    cases rest with
+    | nil => cases a <;> rfl
+    | cons b rest' => cases a <;> rfl
+
+/-- **`call_shapes`**: whether a call answers with one row or with an array of rows depends on the KIND of the
+    argument alone - never on the part or the position: a number or a 0-dimensional array gives one row, a sequence
+    an array, for five maps; `metrical_position_map` gives the tuple for a number, an array for a sequence, and for a
+    0-dimensional array an array when the part has measures (`Iterable`) and one row when it has none -/
+theorem call_shapes (p : PartD) (span : Span) (kss : List (Int × Int × Mode)) (clefs : List RawClef)
+    (others : List Int) (a : Arg) :
+    (callTS p.span p.ts a).isOne = a.isZeroDim ∧ (callKS span kss a).isOne = a.isZeroDim ∧
+    (∀ r, callClef span clefs others a = some r → r.isOne = a.isZeroDim) ∧
+    (∀ r, callMeasure p a = some r → r.isOne = a.isZeroDim) ∧
+    (∀ r, callMeasureNumber p a = some r → r.isOne = a.isZeroDim) ∧
+    (∀ r, callMetrical p a = some r → r.isOne = match a with
+      | .scalar _ => true
+      | .zerod _ => p.ms.isEmpty
+      | .seq _ => false) := by
+  refine ⟨interp_shape _ a, interp_shape _ a, ?_, ?_, ?_, ?_⟩
+  · intro r hr
+    unfold callClef at hr
+    cases hc : clefRows clefs with
+    | none => rw [hc] at hr; simp at hr
+    | some rows =>
+      cases hn : clefSignToInt "none" with
+      | none => rw [hc, hn] at hr; simp at hr
+      | some noneCode =>
+        rw [hc, hn] at hr
+        simp only [Option.some.injEq] at hr
+        rw [← hr]
+        cases a <;> rfl
+  · intro r hr
+    unfold callMeasure at hr
+    split at hr
+    · simp at hr
+    · simp only [Option.some.injEq] at hr
+      rw [← hr]; exact interp_shape _ a
+  · intro r hr
+    unfold callMeasureNumber at hr
+    split at hr
+    · simp at hr
+    · cases ht : measureNumberTable p.span p.ms (beatsPerBar p) (divsPerBeat p) with
+      | none => rw [ht] at hr; simp at hr
+      | some tbl =>
+        rw [ht] at hr
+        simp only [Option.map_some, Option.some.injEq] at hr
+        rw [← hr]; exact interp_shape _ a
+  · intro r hr
+    cases a with
+    | scalar x =>
+      rw [(metrical_calls_agree p).1] at hr
+      cases hm : metricalMapP p x with
+      | none => rw [hm] at hr; simp at hr
+      | some v => rw [hm] at hr; simp only [Option.map_some, Option.some.injEq] at hr; rw [← hr]; rfl
+    | zerod x =>
+      rw [(zerod_calls_agree p span kss clefs others x).2.2.2.2.2] at hr
+      cases hm : metricalMapP p x with
+      | none => rw [hm] at hr; simp at hr
+      | some v =>
+        rw [hm] at hr
+        simp only [Option.map_some, Option.some.injEq] at hr
+        rw [← hr]
+        cases p.ms.isEmpty <;> rfl
+    | seq xs =>
+      cases xs with
+      | nil =>
+        rw [(metrical_calls_agree p).2.2] at hr
+        cases hm : metricalMapP p 0 with
+        | none => rw [hm] at hr; simp at hr
+        | some v => rw [hm] at hr; simp only [Option.map_some, Option.some.injEq] at hr; rw [← hr]; rfl
+      | cons x rest =>
+        rw [(metrical_calls_agree p).2.1 _ (List.cons_ne_nil _ _)] at hr
+        cases hm : allSomeL ((x :: rest).map (metricalMapP p)) with
+        | none => rw [hm] at hr; simp at hr
+        | some v => rw [hm] at hr; simp only [Option.map_some, Option.some.injEq] at hr; rw [← hr]; rfl
+
+/-- non-vacuity of the argument kinds of `metrical_position_map`: a part with a pickup (first bar moved back to -8) -/
+def exCallPart : PartD :=
+  { npoints := 5, span := some (0, 52), qd := [(0, 4), (28, 8)], ts := [⟨0, 6, 8, 2⟩, ⟨28, 3, 4, 3⟩], musical := true,
+    ms := [(0, 4, some 0), (4, 28, some 1), (28, 52, some 2)] }
+
+example : callMetrical exCallPart (.scalar 30) = some (.one (2, some 24))
+    ∧ callMetrical exCallPart (.zerod 30) = some (.many [(2, some 24)])
+    ∧ callMetrical exCallPart (.seq [30, 2]) = some (.many [(2, some 24), (10, some 12)])
+    ∧ callMetrical exCallPart (.seq []) = some (.many [])
+    ∧ callMetrical { exCallPart with ms := [] } (.zerod 30) = some (.one (0, some 0))
+    ∧ callMeasureNumber exCallPart (.seq [30, 2]) = some (.many [some 2, some 0])
+    ∧ callMeasureNumber exCallPart (.zerod 30) = some (.one (some 2)) := by decide +kernel
 
 end C10
